@@ -18,7 +18,6 @@ package core
 
 import (
 	"encoding/json"
-	"fmt"
 	"sync"
 	"time"
 )
@@ -392,7 +391,10 @@ func (s *LinearState) doFindRules(ctx *Context, event Map) (map[string]Map, erro
 				}
 			}
 		default:
-			panic(fmt.Errorf("rule %#v bad type", rule))
+			// A fact that happens to have a non-map 'rule'
+			// property is not a rule (as in IndexedState).
+			Log(WARN, ctx, "LinearState.FindRules", "id", id, "warning", "rule is not a map")
+			continue
 		}
 	}
 
